@@ -186,7 +186,7 @@ func TestC19(t *testing.T) {
 		W:          map[string]int{"insert": 9, "update": 3, "delete": 2, "many": 2, "query": 6},
 		AllowCache: true, AllowCompress: true, AllowAsync: true, AllowLower: true,
 		MaxIndexed: 4, MaxUnique: 1, CasePaths: 1,
-		TinyBias: 55, BigBias: 12, HookBias: 0, RichShape: 15, MaxLeaves: 2, BadQueryPct: 60,
+		TinyBias: 55, BigBias: 12, HookBias: 0, RichShape: 30, MaxLeaves: 2, BadQueryPct: 60,
 	}
 	rapid.Check(t, func(rt *rapid.T) {
 		g := NewG(rt, prof)
@@ -301,6 +301,26 @@ func caseC19(t TB, prog *Program) {
 					e.failf("%s: Search(valid).%s(%q, %q, %s) cannot be evaluated (%s) but returned %d objects", when, conn, l.Path, l.Op, l.V, cls, nn)
 				}
 			}
+		}
+		// a search template that carries values: the interface{} field then has a type to
+		// search with, while stored objects hold other dynamic types (or nothing) in it
+		for _, probe := range []interface{}{"a", int64(1), 1.5} {
+			probe := probe
+			var objs []sod.Object
+			p, stk, hung := protect("search on the interface field", func() {
+				objs, _ = e.db.Search(&Doc{Any: probe, S: "tmpl", I64: 7}, "Any", "=", probe).Collect()
+			})
+			fail(fmt.Sprintf("%s: Search(template with Any=%T, \"Any\", \"=\", %v)", when, probe, probe), p, stk, hung)
+			wantAny := probe
+			if sv, ok := probe.(string); ok {
+				wantAny = canonCase(e.cfg.Cons["Any"], sv)
+			}
+			for _, o := range objs {
+				if m, ok := e.m.objs[o.UUID()]; !ok || fmt.Sprint(m.Any) != fmt.Sprint(wantAny) {
+					e.failf("%s: Search(template with Any=%T, \"Any\", \"=\", %v) returned %s", when, probe, probe, e.docLine(o))
+				}
+			}
+			e.flag("search-on-interface-field-with-valued-template")
 		}
 		// after failed searches every call must still return (no lock left behind)
 		if len(args) > 0 {
